@@ -2,6 +2,7 @@ package main
 
 import (
 	"fmt"
+	"math"
 )
 
 // C01 — ordered-list semantics under any operation history.
@@ -80,7 +81,11 @@ func (c01) Gen(r *Rng, tier string, run int) *Trace {
 				op.Args = append(op.Args, val(true))
 			}
 		case "Insert":
-			op.Args = []Val{val(false), vInt(r.Range(-1, L+2))}
+			pos := r.Range(-1, L+2)
+			if r.Bool(0.08) {
+				pos = []int{math.MaxInt, math.MinInt, math.MaxInt - 1, 1 << 40}[r.Intn(4)]
+			}
+			op.Args = []Val{val(false), vInt(pos)}
 		case "Remove":
 			if L == 0 {
 				continue
